@@ -852,3 +852,92 @@ func referrers(v ssa.Value) []ssa.Instruction {
 	}
 	return *r
 }
+
+// guardsOnEdge: atoms known when control flows from pred to succ (pred's
+// dominating guards plus pred's own terminating condition with the edge's polarity).
+func guardsOnEdge(pred, succ *ssa.BasicBlock) []Atom {
+	out := append([]Atom{}, guardsAt(pred)...)
+	if len(pred.Instrs) > 0 {
+		if iff, ok := pred.Instrs[len(pred.Instrs)-1].(*ssa.If); ok && pred.Succs[0] != pred.Succs[1] {
+			for idx := 0; idx < 2; idx++ {
+				if pred.Succs[idx] == succ {
+					if at, ok := condAtom(iff.Cond, idx == 0); ok {
+						out = append(out, at.canon())
+					}
+				}
+			}
+		}
+	}
+	return out
+}
+
+// storesTo lists Store instructions in fn whose address is field `name` of a struct type `owner`.
+func storesTo(fn *ssa.Function, owner, name string) []*ssa.Store {
+	var out []*ssa.Store
+	eachInstr(fn, func(in ssa.Instruction) {
+		if st, ok := in.(*ssa.Store); ok {
+			if ref, _, ok := fieldAddrRef(st.Addr); ok && ref.Owner == owner && ref.Name == name {
+				out = append(out, st)
+			}
+		}
+	})
+	return out
+}
+
+// loadsOf lists loads of field `name` of struct `owner` in fn.
+func loadsOf(fn *ssa.Function, owner, name string) []*ssa.UnOp {
+	var out []*ssa.UnOp
+	eachInstr(fn, func(in ssa.Instruction) {
+		if u, ok := in.(*ssa.UnOp); ok && u.Op == token.MUL {
+			if ref, _, ok := fieldAddrRef(u.X); ok && ref.Owner == owner && ref.Name == name {
+				out = append(out, u)
+			}
+		}
+	})
+	return out
+}
+
+// isInduction: v is a loop variable phi(c, v+k) with c >= 0, k > 0 (so v >= 0).
+func isInductionFromNonNeg(v ssa.Value) bool {
+	phi, ok := v.(*ssa.Phi)
+	if !ok {
+		return false
+	}
+	hasInit, hasStep := false, false
+	for _, e := range phi.Edges {
+		if k, ok := constInt(e); ok && k >= 0 {
+			hasInit = true
+			continue
+		}
+		if bo, ok := e.(*ssa.BinOp); ok && bo.Op == token.ADD {
+			if bo.X == ssa.Value(phi) {
+				if k, ok := constInt(bo.Y); ok && k > 0 {
+					hasStep = true
+					continue
+				}
+			}
+			// x += width - 1 style: (x + (w-1)) + 1 — accept additions of the phi itself plus anything, then +1
+			if inner, ok := bo.X.(*ssa.BinOp); ok && inner.Op == token.ADD && inner.X == ssa.Value(phi) {
+				hasStep = true
+				continue
+			}
+		}
+		return false
+	}
+	return hasInit && hasStep
+}
+
+func typesPointer(t types.Type) types.Type { return types.NewPointer(t) }
+
+// constObjInt returns the integer value of a constant object (or a large negative sentinel).
+func constObjInt(o types.Object) int64 {
+	k, ok := o.(*types.Const)
+	if !ok {
+		return -1 << 40
+	}
+	v, ok := constant.Int64Val(k.Val())
+	if !ok {
+		return -1 << 40
+	}
+	return v
+}
